@@ -410,4 +410,138 @@ Proof.
     split; [exact MI8|]. split; [rewrite Hip8, Hq; reflexivity|]. split; [exact V8|exact G8].
 Qed.
 
+(* ------------------------------------------------------------ the induction on the reference derivation *)
+Definition args_okP (sc : list text) (lv : list rval3) (rho : env3) (args : list expr3) (rs : list rval3)
+                    (rho' : env3) : Prop :=
+  forall f l n s l' n' s' code, Forall (fun x => wf3 x sc) args -> (cell_size (cells_of3 args) < f)%nat ->
+    hdr3 l sc s -> minv s ->
+    args_loop (compile_expression f) (cells_of3 args) l n s = ROk (l', n') s' -> fwd l' = fwd l ++ code ->
+    exec_args3 ob s' (len (fwd l)) code (len args) lv rho rs rho'.
+
+Lemma statics sc args : Forall (fun x => wf3 x sc) args -> Forall (compile_static3 sc) args.
+Proof. intros H. eapply Forall_impl; [|exact H]. intros x Hx. apply static3. exact Hx. Qed.
+
+Lemma ref_evals3_len sc lv rho args rs rho' : ref_evals3 bsem sc lv rho args rs rho' -> length rs = length args.
+Proof. induction 1; cbn [length]; congruence. Qed.
+
+Lemma dyn_datum sc lv rho (e : expr3) d :
+  (forall f l tail, compile_expression (S f) l tail (cell_of3 e) =
+     (dom v <- maybe_put_cell_m d; ret (emit (emit (emit_op l OMovImmediate) v) VAcc))) ->
+  heap_datum d -> body_ok sc lv rho e (R3Base (RDatum d)) rho.
+Proof.
+  intros Heq Hd f l tail s l' s' code _ Hf Hh MI Hcomp Hfwd. destruct f as [|f]; [lia|].
+  rewrite Heq in Hcomp. destruct (maybe_put_cell_m_ok d s Hd MI) as (v & s1 & E & MI1 & X & R & V).
+  unfold bindM in Hcomp. rewrite E in Hcomp. unfold ret in Hcomp. injection Hcomp as <- <-.
+  rewrite fwd_emit3 in Hfwd. apply app_inv_head in Hfwd. subst code. apply exec3_movimm. exact V.
+Qed.
+
+Lemma dyn_store sc lv rho (e0 : expr3) x e r1 rho1 :
+  (forall f l tail s, compile_expression (S f) l tail (cell_of3 e0) s =
+    (dom l1 <- compile_expression f l false (cell_of3 e);
+     dom sym_ref <- put_cell_m (CSym x);
+     dom operand <- location_operand (emit (emit_op l1 OMov) VAcc) sym_ref;
+     ret (emit (emit (emit_op (emit (emit (emit_op l1 OMov) VAcc) operand) OMovImmediate) VVoid) VAcc)) s) ->
+  (cell_size (cell_of3 e) < cell_size (cell_of3 e0))%nat ->
+  (wf3 e0 sc -> pindex x sc = None /\ wf3 e sc) ->
+  body_ok sc lv rho e r1 rho1 -> body_ok sc lv rho e0 (R3Base (RDatum CVoid)) (upd3 rho1 x r1).
+Proof.
+  intros Heq Hsz Hw IH f l tail s l' s' code Hwf Hf Hh MI Hcomp Hfwd. destruct f as [|f]; [lia|].
+  destruct (Hw Hwf) as [Hpx We]. rewrite Heq in Hcomp.
+  destruct (static3 e sc We f l false s ltac:(lia) Hh MI) as (l1 & s1 & c1 & E1 & F1 & S1 & MI1 & X1 & R1 & _).
+  destruct (put_sym_m_ok x s1 MI1) as (a & s2 & E2 & MI2 & X2 & R2 & A & C & Eb & Eg).
+  destruct (get_binding_ok a s2 MI2) as (k & s3 & E3 & MI3 & X3 & R3 & Eh & Es & B).
+  assert (Hh2 : hdr3 (emit (emit_op l1 OMov) VAcc) sc s2).
+  { eapply hdr3_same; [|eapply hdr3_ext; [|exact Hh]].
+    - eapply same_hdr_trans; [exact S1|repeat split].
+    - eapply cext_trans; eassumption. }
+  unfold bindM at 1 in Hcomp. rewrite E1 in Hcomp. unfold bindM at 1 in Hcomp. rewrite E2 in Hcomp.
+  unfold bindM at 1 in Hcomp. rewrite (location_global3 _ sc s2 a x Hh2 (mi_heap _ MI2) A C Hpx) in Hcomp.
+  unfold bindM at 1 in Hcomp. rewrite E3 in Hcomp. unfold ret in Hcomp. injection Hcomp as <- <-.
+  rewrite fwd_store, F1, <- app_assoc in Hfwd. apply app_inv_head in Hfwd. subst code.
+  apply (exec3_store ob s3 _ c1 a k x).
+  - apply (exec3_ext ob s3 s1); [eapply cext_trans; eassumption|]. exact (IH f l false s l1 s1 c1 We ltac:(lia) Hh MI E1 F1).
+  - rewrite Eh. exact A.
+  - rewrite Eh. exact C.
+  - exact B.
+Qed.
+
+Lemma dyn_if sc lv rho c a b rc rho1 r rho2 (eb : bool) :
+  body_ok sc lv rho c rc rho1 -> is_false3 rc = eb ->
+  (if eb then body_ok sc lv rho1 b r rho2 else body_ok sc lv rho1 a r rho2) ->
+  body_ok sc lv rho (YIf c a b) r rho2.
+Proof.
+  intros IHc Hrc IHx f l tail s l' s' code (Wc & Wa & Wb) Hf Hh MI Hcomp Hfwd. destruct f as [|f]; [lia|].
+  cbn [cell_of3] in *. cbn [cell_size] in Hf. rewrite compile_if3_eq in Hcomp.
+  destruct (static3 c sc Wc f l false s ltac:(lia) Hh MI) as (l1 & s1 & cc & E1 & F1 & S1 & MI1 & X1 & R1 & _).
+  set (l3 := emit (emit_op l1 OJnt) (VPtr CAFEBEEF)) in *.
+  assert (S3 : same_hdr l l3) by (eapply same_hdr_trans; [exact S1|repeat split]).
+  pose proof (hdr3_same _ _ _ _ S3 (hdr3_ext _ _ _ _ X1 Hh)) as Hh3.
+  destruct (static3 a sc Wa f l3 tail s1 ltac:(lia) Hh3 MI1) as (l4 & s2 & ca & E4 & F4 & S4 & MI2 & X2 & R2 & _).
+  destruct (if_layout l l1 l4 cc ca F1 F4) as [L6 F7].
+  set (l6 := emit (emit_op l4 OJmp) (VPtr CAFEBEEF)) in *.
+  set (l7 := bc_patch l6 (bc_len (emit_op l1 OJnt)) (VPtr (bc_len l6))) in *.
+  assert (S7 : same_hdr l l7).
+  { eapply same_hdr_trans; [exact S3|]. eapply same_hdr_trans; [exact S4|]. repeat split. }
+  assert (X12 : cext s s2) by (eapply cext_trans; eassumption).
+  pose proof (hdr3_same _ _ _ _ S7 (hdr3_ext _ _ _ _ X12 Hh)) as Hh7.
+  destruct (static3 b sc Wb f l7 tail s2 ltac:(lia) Hh7 MI2) as (l8 & s3 & cb & E8 & F8 & S8 & MI3 & X3 & R3 & _).
+  set (p := len (fwd l)) in *.
+  assert (L7 : len (fwd l7) = bc_len l6) by (rewrite F7, L6; lens; fold p; lia).
+  assert (L3 : len (fwd l3) = p + len cc + 2) by (unfold l3; rewrite fwd_emit, fwd_emit_op, F1; lens; fold p; lia).
+  assert (L8 : bc_len l8 = bc_len l6 + len cb) by (rewrite (bc_len_fwd l8), F8, len_app, L7; reflexivity).
+  unfold bindM at 1 in Hcomp. rewrite E1 in Hcomp. unfold bindM at 1 in Hcomp. fold l3 in Hcomp. rewrite E4 in Hcomp.
+  unfold bindM at 1 in Hcomp. fold l6 l7 in Hcomp. rewrite E8 in Hcomp. unfold ret in Hcomp. injection Hcomp as <- <-.
+  rewrite (if_final l8 l4 (fwd l ++ cc ++ [VOp OJnt; VPtr (bc_len l6)] ++ ca) cb) in Hfwd;
+    [|rewrite F8, F7, <- !app_assoc; reflexivity
+     |rewrite bc_len_fwd, fwd_emit_op, F4; lens; rewrite L3; lens; fold p; lia].
+  rewrite <- !app_assoc in Hfwd. apply app_inv_head in Hfwd. subst code.
+  assert (X13 : cext s1 s3) by (eapply cext_trans; eassumption).
+  apply (exec3_if ob s3 p cc ca cb _ _ tail lv rho rc rho1 r rho2 eb L6 L8).
+  - apply (exec3_ext ob s3 s1); [exact X13|]. exact (IHc f l false s l1 s1 cc Wc ltac:(lia) Hh MI E1 F1).
+  - exact Hrc.
+  - destruct eb.
+    + rewrite <- L7. exact (IHx f l7 tail s2 l8 s3 cb Wb ltac:(lia) Hh7 MI2 E8 F8).
+    + rewrite <- L3. apply (exec3_ext ob s3 s2); [exact X3|]. exact (IHx f l3 tail s1 l4 s2 ca Wa ltac:(lia) Hh3 MI1 E4 F4).
+Qed.
+
+Lemma dyn_if1 sc lv rho c a rc rho1 r rho2 (eb : bool) :
+  body_ok sc lv rho c rc rho1 -> is_false3 rc = eb ->
+  (if eb then r = R3Base (RDatum CVoid) /\ rho2 = rho1 else body_ok sc lv rho1 a r rho2) ->
+  body_ok sc lv rho (YIf1 c a) r rho2.
+Proof.
+  intros IHc Hrc IHx f l tail s l' s' code (Wc & Wa) Hf Hh MI Hcomp Hfwd. destruct f as [|f]; [lia|].
+  cbn [cell_of3] in *. cbn [cell_size] in Hf. rewrite compile_if2_eq in Hcomp.
+  destruct (static3 c sc Wc f l false s ltac:(lia) Hh MI) as (l1 & s1 & cc & E1 & F1 & S1 & MI1 & X1 & R1 & _).
+  set (l3 := emit (emit_op l1 OJnt) (VPtr CAFEBEEF)) in *.
+  assert (S3 : same_hdr l l3) by (eapply same_hdr_trans; [exact S1|repeat split]).
+  pose proof (hdr3_same _ _ _ _ S3 (hdr3_ext _ _ _ _ X1 Hh)) as Hh3.
+  destruct (static3 a sc Wa f l3 tail s1 ltac:(lia) Hh3 MI1) as (l4 & s2 & ca & E4 & F4 & S4 & MI2 & X2 & R2 & _).
+  destruct (if_layout l l1 l4 cc ca F1 F4) as [L6 F7].
+  set (l6 := emit (emit_op l4 OJmp) (VPtr CAFEBEEF)) in *.
+  set (l7 := bc_patch l6 (bc_len (emit_op l1 OJnt)) (VPtr (bc_len l6))) in *.
+  set (cb := [VOp OMovImmediate; VVoid; VAcc]).
+  set (l8 := emit (emit (emit_op l7 OMovImmediate) VVoid) VAcc) in *.
+  assert (F8 : fwd l8 = fwd l7 ++ cb) by apply fwd_emit3.
+  set (p := len (fwd l)) in *.
+  assert (L7 : len (fwd l7) = bc_len l6) by (rewrite F7, L6; lens; fold p; lia).
+  assert (L3 : len (fwd l3) = p + len cc + 2) by (unfold l3; rewrite fwd_emit, fwd_emit_op, F1; lens; fold p; lia).
+  assert (L8 : bc_len l8 = bc_len l6 + len cb) by (rewrite (bc_len_fwd l8), F8, len_app, L7; reflexivity).
+  unfold bindM at 1 in Hcomp. rewrite E1 in Hcomp. unfold bindM at 1 in Hcomp. fold l3 in Hcomp. rewrite E4 in Hcomp.
+  fold l6 l7 l8 in Hcomp. unfold ret in Hcomp. injection Hcomp as <- <-.
+  rewrite (if_final l8 l4 (fwd l ++ cc ++ [VOp OJnt; VPtr (bc_len l6)] ++ ca) cb) in Hfwd;
+    [|rewrite F8, F7, <- !app_assoc; reflexivity
+     |rewrite bc_len_fwd, fwd_emit_op, F4; lens; rewrite L3; lens; fold p; lia].
+  rewrite <- !app_assoc in Hfwd. apply app_inv_head in Hfwd. subst code.
+  destruct eb.
+  - destruct IHx as [-> ->].
+    apply (exec3_if ob s2 p cc ca cb _ _ tail lv rho rc rho1 (R3Base (RDatum CVoid)) rho1 true L6 L8).
+    + apply (exec3_ext ob s2 s1); [exact X2|]. exact (IHc f l false s l1 s1 cc Wc ltac:(lia) Hh MI E1 F1).
+    + exact Hrc.
+    + cbv iota. apply exec3_movimm. apply vrep_void.
+  - apply (exec3_if ob s2 p cc ca cb _ _ tail lv rho rc rho1 r rho2 false L6 L8).
+    + apply (exec3_ext ob s2 s1); [exact X2|]. exact (IHc f l false s l1 s1 cc Wc ltac:(lia) Hh MI E1 F1).
+    + exact Hrc.
+    + cbv iota. rewrite <- L3. exact (IHx f l3 tail s1 l4 s2 ca Wa ltac:(lia) Hh3 MI1 E4 F4).
+Qed.
+
 End Run3.
